@@ -74,6 +74,25 @@ def main():
         def port_value(tag):
             if tag == 0:
                 return 0
+            if tag == 'D':
+                # the DEFAULT value of --port (8899), given explicitly among --ports; one point at a time may hold it
+                if 'D' not in fixed:
+                    import fcntl
+                    lock = open('/tmp/verif-c19-default-port.lock', 'w')
+                    fcntl.flock(lock, fcntl.LOCK_EX)
+                    res['_lock'] = True
+                    globals()['_default_port_lock'] = lock
+                    for h in hosts:
+                        s = socket.socket(fam[h])
+                        s.setsockopt(socket.SOL_SOCKET, socket.SO_REUSEADDR, 1)
+                        try:
+                            s.bind((h, 8899))
+                        except OSError:
+                            raise RuntimeError('SKIP: default port 8899 is in use on this machine')
+                        finally:
+                            s.close()
+                    fixed['D'] = 8899
+                return fixed['D']
             if tag not in fixed:
                 # a port that is free on every configured address
                 for _ in range(50):
@@ -90,7 +109,7 @@ def main():
                         fixed[tag] = p
                         break
             return fixed[tag]
-        args = ['--hostname', pt['hostname'], '--port', str(port_value(pt['port'])),
+        args = ['--hostname', pt['hostname']] + ([] if pt['port'] is None else ['--port', str(port_value(pt['port']))]) + [
                 '--num-workers', str(pt['workers']), '--num-acceptors', str(pt['workers']),
                 '--log-level', 'c', '--data-dir', tmp, '--ca-cert-dir', tmp + '/c', '--cache-dir', tmp + '/cache']
         if pt['hostnames']:
@@ -116,7 +135,7 @@ def main():
                 if sk is not None and sk.family != socket.AF_UNIX:
                     bound.append((sk.getsockname()[0], sk.getsockname()[1]))
             res['bound'] = sorted(bound)
-            res['requested_primary'] = port_value(pt['port'])
+            res['requested_primary'] = None if pt['port'] is None else port_value(pt['port'])
             res['requested_ports'] = want_ports
             if pt['files']:
                 res['port_file'] = open(tmp + '/port').read().split()
@@ -149,6 +168,8 @@ def main():
             res['files_left'] = [f for f in ('port', 'pid') if os.path.exists(tmp + '/' + f)]
     except BaseException as e:  # noqa
         import traceback
+        if str(e).startswith('SKIP:'):
+            res['skipped'] = str(e)
         res['exception'] = '%s: %s' % (type(e).__name__, e)
         res['traceback'] = traceback.format_exc()[-1200:]
     finally:
